@@ -15,7 +15,7 @@ SQL text and the current input data (`data` is a version number of everything th
 * `registerNamed`— `register_table_input_nodes_concat_with_tf` / `register_table_predict` /
                    `register_term_frequency_lookup` / `compute_df_concat_with_tf` storing under the templated name
 * `dropTable`    — `drop_table_from_database_and_remove_from_cache`
-* `invalidate`   — `invalidate_cache` (fresh uid, empty dict)
+* `invalidate`   — `invalidate_cache` (drop every table Splink created, empty dict; the hash uid does not change)
 * `deleteCreated`— `delete_tables_created_by_splink_from_db`
 -/
 namespace SplinkVerif.Cache
@@ -97,11 +97,10 @@ def registerNamed (s : State) (templ h v : Nat) : State :=
 def dropTable (s : State) (p : Phys) : State :=
   { s with db := dbDel p s.db, cache := s.cache.filter fun q => q.2.phys != p }
 
-/-- `invalidate_cache`: a fresh uid and an empty dict (tables stay in the database). -/
-def invalidate (s : State) : State := { s with uid := s.uid + 1, cache := [] }
-
-/-- the input data changed and `invalidate_cache()` was called -/
-def mutateInvalidate (s : State) : State := invalidate { s with data := s.data + 1 }
+/-- drop the entry stored under a templated name from the dict only
+(`register_term_frequency_lookup` forgets `__splink__df_concat_with_tf`) -/
+def forgetNamed (s : State) (templ : Nat) : State :=
+  { s with cache := s.cache.filter fun q => q.1 != .named templ }
 
 /-- `delete_tables_created_by_splink_from_db`: drop every entry stored under its own physical name
 that Splink created. -/
@@ -109,11 +108,21 @@ def deleteCreated (s : State) : State :=
   let victims := (s.cache.filter fun q => q.2.createdBySplink && q.1 == .phys q.2.phys).map (·.2.phys)
   victims.foldl dropTable s
 
+/-- `invalidate_cache`: the uid that is re-drawn is the *linker's* (`settings._cache_uid`); the uid that
+enters the physical-name hash is the `DatabaseAPI`'s and stays as it is. What makes later requests
+recompute is that every table Splink created is dropped from the database
+(`delete_tables_created_by_splink_from_db`) before the dict is emptied. -/
+def invalidate (s : State) : State := { deleteCreated s with cache := [] }
+
+/-- the input data changed and `invalidate_cache()` was called -/
+def mutateInvalidate (s : State) : State := invalidate { s with data := s.data + 1 }
+
 inductive Op
   | req (r : Req)
   /-- `compute_df_concat_with_tf` & co: compute through the cache, then also store under the templated name -/
   | computeNamed (r : Req)
   | drop (p : Phys)
+  | forgetNamed (templ : Nat)
   | invalidate
   | mutateInvalidate
   /-- the input data change but `invalidate_cache()` is NOT called (e.g. a second linker re-registers
@@ -131,6 +140,7 @@ def applyOp (s : State) : Op → State
     { res.state with cache := cacheSet (.named r.templ) ⟨⟨r.templ, hash r.text s.uid⟩, res.val, true⟩ res.state.cache }
   | .mutate => { s with data := s.data + 1 }
   | .drop p => dropTable s p
+  | .forgetNamed t => forgetNamed s t
   | .invalidate => invalidate s
   | .mutateInvalidate => mutateInvalidate s
   | .deleteCreated => deleteCreated s
